@@ -64,9 +64,10 @@ def harnesses(tier, seed, active_kf=()):
             out.append(mk("C16.%s.vrs.%s" % (e["name"], tag), e["params"], BODY.format(spec=e["spec"], val=e["val"], mask=repr(m)),
                           covers=("same",), pre=e["pre_light"], timeout=e["timeout"] * 1.5, prelude=PRELUDE, functions=FUNCS,
                           bounds=BOUNDS))
+            gpre = ["%s <= 3" % v for v in ("k", "p", "q") if ("%s: int" % v) in e["params"]]   # generated lengths stay short
             out.append(mk("C16.%s.gen.%s" % (e["name"], tag), e["params"] + ", " + tape,
                           GEN.format(spec=e["spec"], mask=repr(m)), covers=("same",),
-                          pre=e["pre_light"] + ["len(c0) == 1 and len(c1) == 1 and len(c2) == 1"],
+                          pre=e["pre_light"] + gpre + ["len(c0) == 1 and len(c1) == 1 and len(c2) == 1"],
                           timeout=e["timeout"] * 1.5, prelude=PRELUDE, functions=FUNCS, bounds=BOUNDS))
         # substituting a bare ... (and other odd roots) must succeed or fail identically as well
         if e["name"] in ("int.minmax", "dict.strict", "list.typed", "any.3", "alias"):
